@@ -606,7 +606,7 @@ def fpconst(text, t):
         return repr(d)
     return text
 
-RENAME = {'nondet_ulong': 'vnd_ulong', 'nondet_uint': 'vnd_uint', 'nondet_uchar': 'vnd_uchar'}
+RENAME = {'bcmp': 'memcmp', 'nondet_ulong': 'vnd_ulong', 'nondet_uint': 'vnd_uint', 'nondet_uchar': 'vnd_uchar'}
 
 # ---------------------------------------------------------------- function translation
 class Fn:
@@ -787,12 +787,14 @@ class Fn:
             while not p.accept(')'):
                 t = p.ty(); a = p.param_attrs()
                 if isinstance(t, MetaTy):
-                    # skip metadata arg
-                    depth = 0
+                    # skip metadata arg (remember a string operand: llvm.type.test carries the static class name)
+                    depth = 0; mstr = None
                     while not (depth == 0 and p.peek()[1] in (',', ')')):
                         if p.peek()[1] in ('(', '{'): depth += 1
                         if p.peek()[1] in (')', '}'): depth -= 1
-                        p.next()
+                        tk = p.next()
+                        if tk[0] == 'str': mstr = tk[1].strip('"')
+                    a = dict(a); a['metastr'] = mstr
                     args.append((None, a))
                 else:
                     args.append((p.value(t), a))
@@ -1089,11 +1091,28 @@ class Fn:
         return vts
 
 
-    def static_class(s, fty):
+
+    def type_test_class(s, vtreg):
+        """static class of a virtual call from clang's llvm.type.test(vtable, !"_ZTS<class>") (-fwhole-program-vtables)"""
+        if not hasattr(s, '_tt'):
+            s._tt = {}
+            for b in s.blocks:
+                for J in b['parsed']:
+                    if J['op'] == 'call' and J['callee'].kind == 'glob' and J['callee'].name.startswith(('llvm.type.test', 'llvm.public.type.test')) and len(J['args']) == 2:
+                        a0 = J['args'][0][0]; ms = J['args'][1][1].get('metastr')
+                        if a0 is None or not ms or not ms.startswith('_ZTS'): continue
+                        v = a0
+                        while v.kind == 'reg' and v.name in s.defs and s.defs[v.name]['op'] == 'bitcast': v = s.defs[v.name]['x']
+                        if v.kind == 'reg': s._tt[v.name] = ms[4:]
+        c = s._tt.get(vtreg)
+        if c and ('_ZTI' + c) in s.E.M.globals: return c
+        return None
+
+    def static_class(s, fty, this_i=0):
         """mangled class name of the static receiver type of a virtual call (None if unknown / unreliable)"""
         E = s.E
-        if not fty.params: return None
-        t = fty.params[0]
+        if len(fty.params) <= this_i: return None
+        t = fty.params[this_i]
         if not isinstance(t, PtrTy) or not isinstance(t.to, NamedTy): return None
         nme = t.to.name
         m = re.match(r'^(class|struct)\.([A-Za-z_][A-Za-z0-9_]*)(\.\d+)?$', nme)
@@ -1151,7 +1170,8 @@ class Fn:
         if not (isinstance(t, PtrTy) and isinstance(E.resolve(t.to), PtrTy) and isinstance(E.resolve(E.resolve(t.to).to), FnTy)): return False
         cands = []
         nparams = len([a for a in args])
-        static_cls = s.static_class(fty)
+        this_i = 1 if (args and 'sret' in args[0][1] and len(args) > 1) else 0
+        static_cls = s.type_test_class(vt.name) or s.static_class(fty, this_i)
         allowed = s.derived_classes(static_cls) if static_cls else None
         for (g, ai, els) in s.vtables():
             idx = 2 + k
@@ -1164,7 +1184,8 @@ class Fn:
             if allowed is not None and g[4:] not in allowed: continue
             if len(f['params']) != nparams or f['ret'].key() != fty.ret.key(): continue
             ok = True
-            for (pt, pn, pa), (a, aa) in list(zip(f['params'], args))[1:]:
+            for pi, ((pt, pn, pa), (a, aa)) in enumerate(zip(f['params'], args)):
+                if pi == this_i: continue
                 if a is not None and pt.key() != a.ty.key():
                     # pointer-to-struct params may differ by llvm-link type renaming: accept any pointer pair
                     if not (isinstance(E.resolve(pt), PtrTy) and isinstance(E.resolve(a.ty), PtrTy)): ok = False
@@ -1209,6 +1230,7 @@ class Fn:
         if n.startswith('llvm.memcpy'): out.append('%s((u8*)%s, (u8*)%s, %s);' % ('ir_memcpy' if dyn else 'memcpy', ex(0), ex(1), ex(2))); return
         if n.startswith('llvm.memmove'): out.append('%s((u8*)%s, (u8*)%s, %s);' % ('ir_memmove' if dyn else 'memmove', ex(0), ex(1), ex(2))); return
         if n.startswith('llvm.memset'): out.append('%s((u8*)%s, %s, %s);' % ('ir_memset' if dyn else 'memset', ex(0), ex(1), ex(2))); return
+        if n.startswith(('llvm.type.test', 'llvm.public.type.test')): s.declare(d, I['ty']); out.append('%s = 1;' % s.reg(d)); return
         if n.startswith('llvm.assume'): out.append('IR_ASSUME(%s);' % ex(0)); return
         if n.startswith('llvm.trap'): out.append('IR_TRAP();'); return
         if n.startswith('llvm.expect'): s.declare(d, I['ty']); out.append('%s = %s;' % (s.reg(d), ex(0))); return
@@ -1336,24 +1358,28 @@ def translate(text, roots, stubs=(), rename=None):
         if n in M.aliases and M.aliases[n].kind == 'glob': continue
         f = M.funcs.get(n)
         if f is None or n.startswith('llvm.') or n in stubs: continue
-        if n in ('memcpy', 'memset', 'memmove', 'malloc', 'free', 'strlen', 'memcmp', 'abort', 'calloc', 'realloc', 'strcmp', 'strncmp', 'strcpy', 'strncpy', 'memchr'): continue
+        if n in ('memcpy', 'memset', 'memmove', 'malloc', 'free', 'strlen', 'memcmp', 'abort', 'calloc', 'realloc', 'strcmp', 'strncmp', 'strcpy', 'strncpy', 'memchr', 'bcmp'): continue
         ps = [E.cty(t) for (t, pn, a) in f['params']]
         if f['vararg']: ps.append('...')
         protos.append('%s %s(%s);' % (E.cty(f['ret']), E.fname(n), ', '.join(ps) or 'void'))
-    gdefs = []; gdecl = []
+    gdefs = []; gdecl = []; vraw = []
     for g in sorted(E.used_globals):
         if g in M.funcs: continue
         gi = M.globals.get(g)
         if gi is None: sys.stderr.write('warning: unknown global %s\n' % g); continue
         ct = E.cty(gi['ty'])
-        if gi['init'] is None: gdecl.append('extern %s %s;' % (ct, E.gname(g)))
+        if gi['init'] is None and g.startswith('vraw_'):
+            # typed storage declared `extern T vraw_x` by a harness: defined here, zero-initialised, NO constructor is run
+            gdecl.append('extern %s %s;' % (ct, E.gname(g))); gdefs.append('%s %s;' % (ct, E.gname(g)))
+            vraw.append((g, E.size_align(gi['ty'])[0]))
+        elif gi['init'] is None: gdecl.append('extern %s %s;' % (ct, E.gname(g)))
         else:
             gdecl.append('extern %s %s;' % (ct, E.gname(g)))
             gdefs.append('%s %s = %s;' % (ct, E.gname(g), E.init_expr(gi['init'])))
     bodies = [fbodies[n][1] for n in order]
     bodies.append('void ir_run_global_ctors(void) {\n%s}\nvoid ir_entry(void) { ir_run_global_ctors(); harness(); }\n' % ''.join('  %s();\n' % E.fname(c) for c in M.ctors if c in fbodies))
     out += E.fwd + E.tydecl + protos + gdecl + gdefs + bodies
-    return '\n'.join(out), dict(functions=order, externals=sorted(n for n in E.used_funcs if n not in fbodies and not n.startswith('llvm.')))
+    return '\n'.join(out), dict(vraw=vraw, functions=order, externals=sorted(n for n in E.used_funcs if n not in fbodies and not n.startswith('llvm.')))
 
 if __name__ == '__main__':
     import argparse, json
